@@ -17,6 +17,11 @@ worker of `Run` to its blocking points; the table of blocking points is regenera
 * `C13_all_guarded`, `C13_no_unguarded`, `C13_static_facts` — the current tree's tables satisfy the hypotheses
   (`decide` on the regenerated tables: an unguarded blocking point, a plain `errCh <-` next to the non-blocking ones,
   a loop without a ctx case, a changed worker set or `Run` protocol breaks the build of this file).
+* `C13_extractor_complete`, `C13_boundary_declared`, `C13_mutex_regions` — completeness of the regenerated table: the
+  extractor resolves calls with type information and follows them to any depth; every call into the repository's
+  own packages or through a func value that it could NOT follow is listed in `Gen.C13.callsNotFollowed`, which must be
+  empty; interface calls are the declared boundary (the list of interfaces is fixed here); every mutex the loops lock
+  has only critical sections that cannot park their holder.
 * `C13_termination` — `termination` at full strength for BOTH worker sets of the current tree (aggregator and full
   node), any budget.
 * witnesses on small hand-written tables, one per kind of unguarded point, showing what each would cause:
@@ -84,6 +89,29 @@ theorem C13_static_facts :
     Gen.C13.aggregatorWorkers = [0, 1, 2, 3, 4] ∧ Gen.C13.fullWorkers = [5, 6, 7, 8, 4] ∧
     aggProgs.all (fun p => p.contains .ctxSelect) = true ∧ fullProgs.all (fun p => p.contains .ctxSelect) = true := by
   decide
+
+/-- **Completeness of the table (1):** on its walks (the nine loop functions and the critical sections of the mutexes they
+lock) the extractor met no call into the repository's own packages, and no call through a func value (func-typed
+field, parameter, local, method value), that it could not resolve and follow. -/
+theorem C13_extractor_complete : Gen.C13.callsNotFollowed = [] := by decide
+
+/-- the interfaces whose method calls are NOT followed: the execution, sequencing and DA layers, the store, the P2P
+broadcasters, the signer, the sequencer's metrics hook (assumed to return once their context is cancelled / to be
+pure computation - props/C13.json), and the `Unwrap() []error` probe of an error value -/
+def declaredBoundary : List String :=
+  ["core/execution.Executor", "core/sequencer.Sequencer", "core/da.DA", "pkg/store.Store", "block.broadcaster",
+   "block.MetricsRecorder", "pkg/signer.Signer", "interface{Unwrap() []error}"]
+
+/-- **Completeness of the table (2):** every interface-method call left unfollowed is on the declared boundary -/
+theorem C13_boundary_declared :
+    Gen.C13.boundaryInterfaces.all (fun i => declaredBoundary.contains i) = true := by decide
+
+/-- **Completeness of the table (3):** no critical section of a mutex locked by a loop (or locked inside such a critical
+section), anywhere in the repository's loaded packages, contains an operation that can park its holder; hence every
+`lock` point of the table is `free` -/
+theorem C13_mutex_regions :
+    Gen.C13.mutexRegionsNonBlocking = true ∧ Gen.C13.mutexes.all (fun m => m.2.2) = true ∧
+    (Gen.C13.points.all fun p => p.2.1 != 5 || p.2.2.2) = true := by decide
 
 /-- **FULL statement for the current tree:** every blocking point of every worker of both modes is guarded and `errCh`
 has room for all its plain senders -/
@@ -306,9 +334,15 @@ theorem mixedErr_witness :
     · simp [step, allDone, h0, h1]
     · simp [step]
 
+/-- a loop that takes a mutex some critical section of which can park its holder / that waits for goroutines the table
+knows nothing about -/
+def lockTable : List (List BP) := [[.ctxSelect, .lock 0 false]]
+def joinTable : List (List BP) := [[.ctxSelect, .join false]]
+
 /-- the static judgement rejects the two tables above (two plain senders for one slot; an unguarded send) -/
 theorem witnesses_rejected :
-    allGuarded errCfg errTable = false ∧ allGuarded chanCfg chanTable = false := by decide
+    allGuarded errCfg errTable = false ∧ allGuarded chanCfg chanTable = false ∧
+    allGuarded errCfg lockTable = false ∧ allGuarded errCfg joinTable = false := by decide
 
 /-! ## the verdict function the driver prints, evaluated on the generated tables -/
 
@@ -330,6 +364,10 @@ theorem C13_verdicts :
     stopsPromptly sleepCfg sleepTable [(0, .sleep false)] [] = false ∧
     stopsPromptly errCfg errTable [(0, .errSend), (1, .errSend)] [] = false ∧
     stopsPromptly errCfg mixTable [(0, .send .errCh true), (1, .errSend)] [] = false ∧
-    stopsPromptly chanCfg chanTable [(1, .send .headerInCh false)] [.headerInCh] = false := by decide
+    stopsPromptly chanCfg chanTable [(1, .send .headerInCh false)] [.headerInCh] = false ∧
+    stopsPromptly errCfg lockTable [(0, .lock 0 false)] [] = false ∧
+    stopsPromptly errCfg joinTable [(0, .join false)] [] = false ∧
+    stopsPromptly (cfg 4) aggProgs [(0, .lock 0 true), (0, .join true)] [] = true ∧
+    stopsPromptly (cfg 4) aggProgs [(1, .send .txNotifyCh true)] [.txNotifyCh] = true := by decide
 
 end Spec.C13
